@@ -5,7 +5,9 @@ from vmon import oracle
 from vgen import reactions as G
 
 RULE = ("inputs = shipped curated reactions that the independent oracle finds balanced, their reversals, "
-        "2x/3x multiples, unions, ionic / heavy-element balanced constructions, and unbalanced corpus "
+        "2x/3x multiples (also side by side with the reaction itself in one batch), unions, result rows of a first "
+        "run fed back as dictionaries (completed rows are balanced now; input-balanced rows edited into unbalanced "
+        "ones), ionic / heavy-element balanced constructions, and unbalanced corpus "
         "inputs for the converse; distinct non-trivial = distinct balanced inputs by canonical fragment "
         "multisets of both sides")
 ASSUMPTIONS = ["'balanced' is decided by the independent RDKit composition oracle",
@@ -30,6 +32,15 @@ def plan(tier, seed):
     pairs += G.ionic_balanced(rng, 200 if q else 2000)
     pairs += [p for p in G.dot_ring_closures(rng, 60 if q else 400) if oracle.balanced(p[1])]
     cases = rowlib.gen_cases(pairs, 30, CFGS, "bal")
+    # families in one batch: a reaction next to its own multiples and reversal (sides that consist of the same
+    # molecule strings with other multiplicities meet in one batch)
+    fam = []
+    for t, rx in rng.sample(pick, 60 if q else 600):
+        one = [(t, rx)]
+        fam += one + G.multiples(one, 2) + G.reversals(one) + G.multiples(one, 3) + G.reversals(G.multiples(one, 2))
+    for f in G.self_reaction_families(rng, 40 if q else 400):
+        fam += f
+    cases += rowlib.gen_cases(fam, 30, CFGS, "family")
     # converse: unbalanced inputs
     cases += rowlib.corpus_cases(rng, 100 if q else 1500, 10, CFGS, tag="unbal")
     cases += rowlib.gen_cases(G.heavy_unbalanced(rng, 40 if q else 400), 10, CFGS, "heavy")
@@ -62,9 +73,37 @@ def judge(case, out, res):
                 res.viol("balanced_input_changed", **base)
         else:
             res.count("unbalanced_inputs")
-            if by == "input-balanced":
+            # (for rows that were fed back with the tool's own columns filled in, a label the caller wrote himself
+            # on a row that comes back unsolved is not counted as the tool labelling it)
+            stale = isinstance(inp, dict) and inp.get("solved_by") == "input-balanced" and row.get("solved") is not True
+            if stale:
+                res.count("refed_rows_unsolved_with_callers_own_label(not asserted)")
+            if by == "input-balanced" and not stale:
                 res.viol("input_balanced_label_on_unbalanced_input",
                          imbalance=oracle.imbalance(raw), **base)
+
+
+def refeed(case, out, res):
+    """second pass: the rows a first run returned (dictionaries carrying the tool's own columns) are the input.
+    Rows the first pass completed are balanced now and must come back input-balanced and unchanged; rows that
+    were input-balanced and are edited into an unbalanced reaction must lose that label."""
+    rows2 = []
+    for row in out["rows"]:
+        r = dict(row)
+        rx = r.get("reaction")
+        if not isinstance(rx, str):
+            return
+        if r.get("solved_by") == "input-balanced":
+            a, _, b = rx.partition(">>")
+            ms = b.split(".")
+            if len(ms) >= 2 and len(rows2) % 2 == 0:
+                r["reaction"] = a + ">>" + ".".join(ms[:-1])  # a product molecule dropped
+        rows2.append(r)
+    case2 = {"tag": case.get("tag", "") + "|refeed", "inputs": rows2, "cfg": case.get("cfg")}
+    out2 = rowlib.run_case(case2, trace=False)
+    res.count("refed_cases")
+    res.count("refed_rows", len(rows2))
+    judge(case2, out2, res)
 
 
 def work(shard, res, tier, seed):
@@ -73,12 +112,14 @@ def work(shard, res, tier, seed):
         case = {"tag": "replay", "inputs": v["inputs"], "cfg": v.get("cfg")}
         judge(case, rowlib.run_case(case, trace=False), res)
         return
-    for case in shard["cases"]:
+    for ci, case in enumerate(shard["cases"]):
         out = rowlib.run_case(case, trace=False)
         judge(case, out, res)
+        if ci % 2 == 0 and rowlib.aligned(case, out):
+            refeed(case, out, res)
         if len(res.samples) < 2 and out["rows"]:
             res.sample({"input": rowlib.raw_of(case["inputs"][0]), "row": out["rows"][0]})
 
 
 def conclude_args(res, tier, seed):
-    return {"need": {"balanced_inputs": 200, "unbalanced_inputs": 50}, "min_cases": 100}
+    return {"need": {"balanced_inputs": 200, "unbalanced_inputs": 50, "refed_rows": 100}, "min_cases": 100}
